@@ -112,6 +112,14 @@ Judge(e) ==
                                     [i \in 1..Len(e.va) |-> FMul(q, val(e.va[i]), val(e.vb[i]))])
     [] e.op = "VecScalarMul" -> VecJudge(e, Len(e.va) # e.lr,
                                     [i \in 1..Len(e.va) |-> FMul(q, val(e.va[i]), val(e.x))])
+    \* sort.Sort over Vector's sort.Interface: a permutation of the operand, ascending in VALUE (Less is Cmp = -1)
+    [] e.op = "VecSort" ->
+         IF Panicked(e) THEN {"panic"}
+         ELSE IF Len(e.vout) # Len(e.va) THEN {"length"}
+         ELSE IF ~AllCanon(e.vout) THEN {"noncanonical"}
+         ELSE (IF \E i \in 1..(Len(e.vout)-1) : Lt(val(e.vout[i+1]), val(e.vout[i])) THEN {"order"} ELSE {})
+              \cup (IF \E i \in 1..Len(e.va) : Cardinality({j \in 1..Len(e.va) : e.vout[j] = e.va[i]})
+                                                # Cardinality({j \in 1..Len(e.va) : e.va[j] = e.va[i]}) THEN {"not-a-permutation"} ELSE {})
     [] e.op = "VecSum"  -> ScalarJudge(e, FALSE, FSum(q, Vals(e.va)))
     [] e.op = "VecInnerProduct" -> ScalarJudge(e, Len(e.va) # Len(e.vb),
                                     IF Len(e.va) # Len(e.vb) THEN Zero ELSE FDot(q, Vals(e.va), Vals(e.vb)))
